@@ -219,8 +219,14 @@ fn judge(base: &Context, w0: &World, p: &Prog, out: Option<&mut Out>, tag: &str)
     }
 }
 
-fn shrink_prog(base: &Context, w0: &World, p: &Prog) -> Prog {
-    let fails = |c: &[S]| judge(base, w0, &c.to_vec(), None, "").is_some();
+/// coarse class of a failure text; shrinking must stay inside the class it started in
+fn fail_class(what: &str) -> String {
+    what.split(|c: char| c == ' ' || c == ':' || c == ',').next().unwrap_or("").to_string()
+}
+
+fn shrink_prog(base: &Context, w0: &World, p: &Prog, class: &str) -> Prog {
+    let same = |c: &Prog| judge(base, w0, c, None, "").map(|w| fail_class(&w) == class).unwrap_or(false);
+    let fails = |c: &[S]| same(&c.to_vec());
     let mut cur = shrink_seq(p, fails);
     // replace sub-expressions by their children while it still fails
     let mut progress = true;
@@ -253,7 +259,7 @@ fn shrink_prog(base: &Context, w0: &World, p: &Prog) -> Prog {
                             idx2 += 1;
                             false
                         });
-                        if judge(base, w0, &cand, None, "").is_some() {
+                        if same(&cand) {
                             cur = cand;
                             progress = true;
                             continue 'outer;
@@ -268,7 +274,7 @@ fn shrink_prog(base: &Context, w0: &World, p: &Prog) -> Prog {
 
 fn check_prog(base: &Context, w0: &World, p: &Prog, out: &mut Out, tag: &str) -> bool {
     if let Some(what) = judge(base, w0, p, Some(out), tag) {
-        let small = shrink_prog(base, w0, p);
+        let small = shrink_prog(base, w0, p, &fail_class(&what));
         let what2 = judge(base, w0, &small, None, "").unwrap_or(what);
         let line = format!("prog {}", prog_sx(&small));
         let key = format!("prog:{}", prog_src(&small).replace('\n', " ; "));
